@@ -19,6 +19,8 @@ CaseVerdict(e) ==
   ELSE IF e.lev > 1 /\ e.side = "short" /\ ~(e.re < e.rl /\ e.rl < e.rb) THEN "liqprice:short:not-strictly-between-entry-and-bankruptcy"
   ELSE IF Abs(e.bu * e.lev - e.eu * (IF e.side = "long" THEN e.lev - 1 ELSE e.lev + 1)) > 2 * e.lev + 2
        THEN "liqprice:closing-at-the-bankruptcy-price-does-not-lose-the-initial-margin"
+  ELSE IF Abs((IF e.side = "long" THEN e.eu - e.lu ELSE e.lu - e.eu) * e.lev * 250 - e.eu * (250 - e.lev)) > 300 * e.lev + 200
+       THEN "liqprice:not-the-liquidation-price-of-the-current-entry-price-and-leverage"
   ELSE "ok"
 Step == /\ l <= Len(Ev)
         /\ LET v == CaseVerdict(Ev[l]) IN bad' = IF v = "ok" \/ v \in DOMAIN bad THEN bad ELSE (v :> l) @@ bad
